@@ -305,6 +305,41 @@ def mk_remerged(spec: dict) -> Converter | None:
     return c
 
 
+def mk_after_rejected_calls(spec: dict) -> Converter:
+    """The converter of ``spec`` built at once, on which calls that MUST be rejected are then attempted (C05: "a rejected
+    call ... raises ValueError and changes nothing"): records bridging two different existing records (with merge=True, in
+    both case modes), fresh records listing an existing prefix / URI prefix as a synonym (merge=False), and plain
+    re-registrations of existing names (merge=False). A call that is wrongly accepted, or a rejected one that leaves traces,
+    makes the converter answer differently from ``Converter(records)``."""
+    d = spec.get("delimiter", ":")
+    recs = spec["records"]
+    c = mk_converter(spec)
+    taken_p = {x for r in recs for x in [r["prefix"], *r["prefix_synonyms"]]}
+    taken_u = {x for r in recs for x in [r["uri_prefix"], *r["uri_prefix_synonyms"]]}
+
+    def attempt(fn):
+        try:
+            fn()
+        except Exception:  # noqa: BLE001
+            pass
+
+    for i, r1 in enumerate(recs):
+        r2 = recs[(i + 1) % len(recs)]
+        p_new, u_new = _fresh(taken_p, "rej", d), _fresh(taken_u, "rejected://u")
+        if r2 is not r1:
+            # bridges: touch r1 on one side and r2 on the other (or the same) side
+            attempt(lambda: c.add_record(Record(prefix=p_new, uri_prefix=u_new, prefix_synonyms=[r1["prefix"]], uri_prefix_synonyms=[r2["uri_prefix"]]), merge=True))
+            attempt(lambda: c.add_record(Record(prefix=r1["prefix"], uri_prefix=r2["uri_prefix"]), merge=True))
+            attempt(lambda: c.add_record(Record(prefix=p_new, uri_prefix=u_new, prefix_synonyms=[r1["prefix"], r2["prefix"]]), merge=True, case_sensitive=False))
+            attempt(lambda: c.add_prefix(p_new, r1["uri_prefix"], uri_prefix_synonyms=[r2["uri_prefix"]], merge=True))
+        # clashes without merge: everything new except one synonym / one canonical value
+        attempt(lambda: c.add_prefix(p_new, u_new, prefix_synonyms=[_fresh(taken_p, "rejs", d), r1["prefix"]]))
+        attempt(lambda: c.add_prefix(p_new, u_new, uri_prefix_synonyms=[_fresh(taken_u, "rejected://s"), r1["uri_prefix"]]))
+        attempt(lambda: c.add_record(Record(prefix=r1["prefix"], uri_prefix=u_new)))
+        attempt(lambda: c.add_record(Record(prefix=p_new, uri_prefix=r1["uri_prefix"])))
+    return c
+
+
 def history_variants(spec: dict, queries=None, *, base: bool = True):
     """(label, converter) pairs: the converter denoted by ``spec`` reached through every history this harness knows. All
     of them must answer every query identically (C05 / C09 / C10); the scalar properties are checked on each."""
@@ -319,4 +354,5 @@ def history_variants(spec: dict, queries=None, *, base: bool = True):
     rm = mk_remerged(spec)
     if rm is not None:
         yield "built at once, then every record merged into itself again case-insensitively", rm
+    yield "built at once, then calls that must be rejected (bridging merges, clashing additions) were attempted", mk_after_rejected_calls(spec)
     yield "built at once, then used as input of chain / get_subconverter / remap_* / rewire / discover whose results were mutated", mk_bystander(spec)
